@@ -342,6 +342,26 @@ def run(ck):
                   "`%s` is signed (%s) and becomes an unsigned count; nothing on the path establishes %s >= %s" % (t, ty, lhs, rhs))
     ck.note("C03-R6: %d signed differences used as counts" % nsd)
 
+    # ---------------- R12: nothing declared noexcept can throw ----------------
+    ck.rule("C03-R12", "F effect check over the call graph (exception specifications)",
+            "no library function declared noexcept contains a throw expression or calls a library function that may reach one: an "
+            "exception that arrives at a noexcept boundary calls std::terminate, so one malformed value would take the whole server "
+            "down instead of being answered with an error (throws inside a try block of the function itself are not followed)", 20)
+    summ12 = lib.Summaries(prog)
+    is_thr = lambda e: e["k"] == "throw"
+    n12 = 0
+    for f in prog.library_funcs():
+        if not (f.d.get("noexcept") and f.blocks) or f.is_lambda:
+            continue
+        n12 += 1
+        has_try = any((b.term or {}).get("k") == "try" for b in f.blocks.values())
+        m = False if has_try else summ12.may(f, is_thr, "throw-expression")
+        ck.ob("C03-R12", "noexcept:%s@%s" % (f.base.replace("Pistache::", ""), f.line), not m, f.loc, f,
+              "cannot reach a throw expression" if not m else
+              "declared noexcept, but a throw expression is reachable from it: the exception cannot leave the function and std::terminate ends "
+              "the process", structural=True)
+    ck.require(n12 >= 20, "noexcept functions in the library: %d" % n12)
+
     # ---------------- facts shared with other properties ----------------
     ck.borrow("C05", ["C05-R4"], "C03-R9",
               "the response buffer is never written past its end: DynamicStreamBuf::overflow stores a byte only while data_.size() < maxSize_ "
